@@ -252,6 +252,91 @@ def r52(ctx, res, resolved):
     ctx.require(res, "R5.2", n, 12, "composite branches")
 
 
+def r53_point_branches(ctx, res):
+    """bounded containers: a Point can only be `in` S if it lies on S's carrier; the polyhedron test is a
+    universally quantified loop over all faces"""
+    from ..types import S
+    from .c15 import cond_deps
+    eng = ctx.types
+    n = 0
+    for cname in ("Segment", "HalfLine", "ConvexPolygon"):
+        c = ctx.repo.cls(cname)
+        m = c.lookup("__contains__")
+        sm = eng.summary(m, (S(cname), S("Point")))
+        if sm is None:
+            raise AnalysisError("%s.__contains__ was not evaluated on a Point" % cname)
+        carriers = sorted(f for (k, f), v in eng.fields.items() if k == cname and set(map(str, v)) <= {"Line", "Plane"})
+        if len(carriers) != 1:
+            raise AnalysisError("%s: expected exactly one carrier field, found %s" % (cname, carriers))
+        me, other = m.params[:2]
+        want = "%s in %s.%s" % (other, me, carriers[0])
+        g = ctx.cfg(m)
+        pfields = point_fields(eng, cname)
+
+        def has_carrier(e) -> bool:
+            visited = []
+            cond_deps(ctx, m, e, visited)
+            return any(isinstance(x, ast.Compare) and txt(x) == want for v in visited for x in ast.walk(v))
+
+        for r in [x for x in walk_local(m.node) if isinstance(x, ast.Return) and id(x) in sm.reached]:
+            n += 1
+            ok, why = False, ""
+            if isinstance(r.value, ast.Constant) and r.value.value is False:
+                ok, why = True, "rejecting return"
+            elif r.value is not None and has_carrier(r.value):
+                ok, why = True, "value depends on `%s`" % want
+            else:
+                nid = g.nodes_of(r)
+                dom = g.dominating_edges(nid[0]) if nid else []
+                for cnode, _, lab in dom:
+                    ce = g.nodes[cnode].ast
+                    if lab == "T" and has_carrier(ce):
+                        ok, why = True, "only reached when `%s` holds" % want
+                    # coincidence with a defining point: Vector(self.<point field>, other).length() < get_eps()
+                    if lab == "T" and isinstance(ce, ast.Compare) and "get_eps()" in txt(ce):
+                        visited = []
+                        cond_deps(ctx, m, ce, visited)
+                        t = " ".join(txt(v) for v in visited)
+                        if any("Vector(%s.%s, %s)" % (me, f, other) in t or "Vector(%s, %s.%s)" % (other, me, f) in t for f in pfields) \
+                                and ".length()" in t:
+                            ok, why = True, "the point coincides with a defining point of the %s (within eps)" % cname
+            res.ob("R5.3", m.where(r), "Point in %s: `%s`" % (cname, txt(r)[:50]), ok, why or "can be True off the carrier")
+            if not ok:
+                res.violation("R5.3", m, r, "`Point in %s` can return True without the point lying on the %s's carrier %s: `%s` "
+                              "neither depends on nor is guarded by `%s`" % (cname, cname, carriers[0], txt(r)[:60], want),
+                              construct="Point in %s: carrier test missing at `%s`" % (cname, txt(r)[:50]))
+    # polyhedron: not strictly outside ANY face
+    m = ctx.repo.cls("ConvexPolyhedron").lookup("__contains__")
+    me, other = m.params[:2]
+    g = ctx.cfg(m)
+    n += 1
+    ok, why = False, "no loop over all faces"
+    for h in [x for x in g.nodes.values() if x.kind == "loop"]:
+        if txt(h.ast.iter) != "%s.convex_polygons" % me:
+            continue
+        conds = [c for c in g.conds() if h.id in c.loops]
+        rej = [c for c in conds for lab in ("T", "F") if g.edge_targets(c.id, lab) and all(
+            g.nodes[y].kind == "return" and txt(g.nodes[y].ast.value) == "False" for y in g.edge_targets(c.id, lab))]
+        done = g.edge_targets(h.id, "done")
+        okD = bool(done) and all(g.nodes[y].kind == "return" and txt(g.nodes[y].ast.value) == "True" for y in done)
+        early = any(g.nodes[y].kind == "return" and txt(g.nodes[y].ast.value) == "True" and h.id in g.nodes[y].loops
+                    for y in g.nodes)
+        if rej and okD and not early:
+            deps = cond_deps(ctx, m, rej[0].ast)
+            if other in deps:
+                ok, why = True, "returns False at the first face the point is outside of (`%s`), True after all faces" % txt(rej[0].ast)[:40]
+            else:
+                why = "the per-face test does not depend on the point"
+        else:
+            why = "loop over the faces is not a universal quantifier (rejecting test: %s, True after loop: %s, early True: %s)" % (
+                bool(rej), okD, early)
+    res.ob("R5.3", m.where(), "Point in ConvexPolyhedron: all faces", ok, why)
+    if not ok:
+        res.violation("R5.3", m, m.node, "`Point in ConvexPolyhedron` must hold for every face: %s" % why,
+                      construct="Point in ConvexPolyhedron: face loop")
+    ctx.require(res, "R5.3", n, 6, "Point-branch returns")
+
+
 def run(ctx, res):
     res.explanation = (
         "Abstract evaluation of S.__contains__(x) for the 18 supported operand-type pairs (isinstance branches, "
@@ -260,9 +345,12 @@ def run(ctx, res):
         "branch must be the conjunction of the membership of every defining point of x (fields of type Point taken "
         "from the inferred field table), or the equivalent carrier statement (origin + direction, plane equality, "
         "universally quantified vertex loop). By convexity of S this is equivalent to containment; dropping a "
-        "conjunct is not. The numerical truth of the leaf predicates, inclusive boundaries and the tolerance band "
+        "conjunct is not. For the bounded containers a Point can be `in` S only if it lies on S's carrier line / plane "
+        "(every accepting return depends on, or is guarded by, the carrier membership, or the point coincides with a "
+        "defining point), and the polyhedron test is a universal loop over all faces. The numerical truth of the leaf predicates, inclusive boundaries and the tolerance band "
         "are NOT decided; that the tolerances are live reads is decided under C19 for the whole package."
     )
     resolved = r51(ctx, res)
     r52(ctx, res, resolved)
+    r53_point_branches(ctx, res)
     res.undecided_ob("numerical truth of Point-in-S predicates (which side of an oblique edge), inclusive boundaries, tolerance band")
